@@ -5,6 +5,12 @@ chunks over the scale constants regenerated from the source), its array / WAV-le
 the WAV codec as the identity, crop / cyclic repeat / stereo packing over lists of any length.
 Monitored here: the model against numpy for all 65 536 values and for generated arrays, the scipy
 WAV codec as an identity on int16 arrays, the side condition of the float ceiling in repeat.
+crop / repeat also run on stereo input of shape [n, 2] (frames; the Lean model at `α := Rat × Rat`).
+Call histories (stream `history`): every function of the statement is called several times in ONE process from a
+small pool of argument objects, with in-place modification of earlier results and of the argument objects in
+between; every call is judged against an independent reference evaluated on the CURRENT contents of its arguments,
+must leave its arguments unchanged, and must not return memory shared with any argument object or earlier result
+(np.shares_memory; the one exception is crop_samples, whose result is a slice view of its own input).
 """
 import ast
 import inspect
@@ -32,7 +38,7 @@ THEOREMS = [
     'NSV.C20.crop_spec', 'NSV.C20.crop_getElem?', 'NSV.C20.crop_length', 'NSV.C20.crop_spec_float',
     'NSV.C20.repeat_errors', 'NSV.C20.repeat_empty', 'NSV.C20.repeat_prefix', 'NSV.C20.repeat_spec',
     'NSV.C20.repeatEnough_exact', 'NSV.C20.repeat_spec_exact', 'NSV.C20.repeat_spec_float',
-    'NSV.C20.repeat_nonpos_exact',
+    'NSV.C20.repeat_nonpos_exact', 'NSV.C20.crop_map', 'NSV.C20.repeat_map', 'NSV.C20.repeat_spec_frames',
     (REP, 'NSV.C20.repeatEnough_float'), (REP, 'NSV.C20.repeatEnough_rne53'), (REP, 'NSV.C20.repeat_spec_float_total'),
     'NSV.C20.stereo_spec', 'NSV.C20.stereo_channels', 'NSV.C20.stereo_dtype_error',
 ]
@@ -132,6 +138,37 @@ def test_array(n, dtype, off=0):
     return ((np.arange(n, dtype=np.int64) * 7 + off) % mod).astype(dtype)
 
 
+def frames_wl(a):
+    """`<frames> l0 r0 l1 r1 …` for an array of shape [n, 2]"""
+    a = np.asarray(a)
+    return ' '.join([str(a.shape[0])] + list(map(str, a.astype(np.int64).ravel().tolist())))
+
+
+def case_input(o):
+    """the sample array of a crop / repeat case: mono [n], or stereo [n, 2] when o['ch'] == 2 — laid out like the
+    result of make_stereo (the transpose of a [2, n] array, right channel 5 samples shorter and zero-padded) for
+    layout 'T', C-contiguous for layout 'C'.  Built without calling the code under test."""
+    dt = DT[o['dtype']]
+    if o.get('ch', 1) == 1:
+        return test_array(o['n'], dt)
+    n = o['n']
+    rows = np.zeros((2, n), dtype=dt)
+    rows[0, :] = test_array(n, dt, 1)
+    k = max(0, n - 5)
+    rows[1, :k] = test_array(k, dt, 3)
+    return rows.T if o.get('layout', 'T') == 'T' else np.ascontiguousarray(rows.T)
+
+
+def show_out(x, out):
+    """canonical text of a crop / repeat result for an input of x.ndim dimensions"""
+    out = np.asarray(out)
+    if x.ndim == 1:
+        return 'ok ' + ints_wl(out) if out.ndim == 1 else 'shape %r' % (out.shape,)
+    if out.ndim != 2 or out.shape[1] != 2:
+        return 'shape %r' % (out.shape,)
+    return 'ok ' + frames_wl(out)
+
+
 def nextafter_n(x, k):
     for _ in range(abs(k)):
         x = math.nextafter(x, math.inf if k > 0 else -math.inf)
@@ -154,15 +191,17 @@ def int16_signal(style, n, seed):
 # build_* gives (stream, request line, canonical implementation answer, histogram keys);
 # oracle_* evaluates the property statement on the implementation (None = holds / outside the quantifier).
 def impl_crop(A, o):
-    x = test_array(o['n'], DT[o['dtype']])
+    x = case_input(o)
     out = A.crop_samples(x, o['rate'], o['begin'], o['length'])
     return x, out
 
 
 def build_crop(A, o):
     x, out = impl_crop(A, o)
-    req = 'crop %d %s %s %s' % (o['rate'], rat(o['begin']), rat(o['length']), ints_wl(x))
-    hist = []
+    two = x.ndim == 2
+    req = '%s %d %s %s %s' % ('crop2' if two else 'crop', o['rate'], rat(o['begin']), rat(o['length']),
+                              frames_wl(x) if two else ints_wl(x))
+    hist = ['input:' + ('stereo[n,2]/' + o.get('layout', 'T') if two else 'mono')]
     b, L, r = o['begin'], o['length'], o['rate']
     if b >= 0 and L >= 0 and r > 0:
         a, n = int(b * r), int(L * r)
@@ -176,7 +215,14 @@ def build_crop(A, o):
             hist.append('python-int-seconds')
     else:
         hist.append('malformed:negative')
-    return 'crop', req, 'ok ' + ints_wl(out), hist
+    return 'crop', req, show_out(x, out), hist
+
+
+def ref_crop(x, rate, b, L):
+    """the statement: the samples (frames, along axis 0) of [int(b*rate), int(b*rate) + int(L*rate)) that exist"""
+    a, n = int(b * rate), int(L * rate)
+    idx = np.arange(a, max(a, min(a + n, len(x))))
+    return (x[idx] if idx.size else x[:0]).copy(), a, n
 
 
 def oracle_crop(A, o):
@@ -187,17 +233,16 @@ def oracle_crop(A, o):
         x, out = impl_crop(A, o)
     except Exception as e:  # pylint: disable=broad-except
         return 'crop_samples raised %s: %s' % (type(e).__name__, e)
-    a, n = int(b * r), int(L * r)     # the statement's own reading: int(seconds*rate)
-    idx = np.arange(a, max(a, min(a + n, len(x))))   # the indices of [a, a+n) that exist
-    want = x[idx] if idx.size else x[:0]
+    want, a, n = ref_crop(x, r, b, L)     # the statement's own reading: int(seconds*rate)
+    out = np.asarray(out)
     if out.shape != want.shape or not np.array_equal(out, want) or out.dtype != x.dtype:
-        return 'crop_samples: got %d samples (first %s), want the %d existing samples of [%d, %d)' % (
-            out.size, out[:3].tolist(), want.size, a, a + n)
+        return 'crop_samples on input of shape %r: got shape %r (first %s), want the %d existing samples of [%d, %d), shape %r' % (
+            x.shape, out.shape, out[:3].tolist(), want.shape[0], a, a + n, want.shape)
     return None
 
 
 def impl_repeat(A, o):
-    x = test_array(o['n'], DT[o['dtype']])
+    x = case_input(o)
     try:
         return x, A.repeat_samples_to_duration(x, o['rate'], o['duration']), None
     except Exception as e:  # pylint: disable=broad-except
@@ -206,9 +251,10 @@ def impl_repeat(A, o):
 
 def build_repeat(A, o):
     x, out, err = impl_repeat(A, o)
-    req = 'repeat %d %s %s' % (o['rate'], rat(o['duration']), ints_wl(x))
+    two = x.ndim == 2
+    req = '%s %d %s %s' % ('repeat2' if two else 'repeat', o['rate'], rat(o['duration']), frames_wl(x) if two else ints_wl(x))
     D, r, n = o['duration'], o['rate'], o['n']
-    hist = []
+    hist = ['input:' + ('stereo[n,2]/' + o.get('layout', 'T') if two else 'mono')]
     if n > 0 and r > 0 and D > 0:
         m = F(D) * r / n
         hist.append('duration:' + ('exact-multiple' if m.denominator == 1 else 'shorter-than-signal' if m < 1 else 'longer-than-signal'))
@@ -220,7 +266,13 @@ def build_repeat(A, o):
             hist.append('python-int-seconds')
     else:
         hist.append('malformed:' + ('empty' if n == 0 else 'rate<=0' if r <= 0 else 'duration<=0'))
-    return 'repeat', req, ('err ' + type(err).__name__) if err is not None else 'ok ' + ints_wl(out), hist
+    return 'repeat', req, ('err ' + type(err).__name__) if err is not None else show_out(x, out), hist
+
+
+def ref_repeat(x, rate, D):
+    """the statement: exactly int(D*rate) samples (frames, along axis 0), sample i = input sample i mod len"""
+    want_len = int(D * rate)
+    return (x[np.arange(want_len) % len(x)] if want_len else x[:0]).copy()
 
 
 def oracle_repeat(A, o):
@@ -230,12 +282,13 @@ def oracle_repeat(A, o):
     x, out, err = impl_repeat(A, o)
     if err is not None:
         return 'repeat_samples_to_duration raised %s: %s' % (type(err).__name__, err)
-    want_len = int(D * r)
-    if out.ndim != 1 or out.shape[0] != want_len:
-        return 'repeat_samples_to_duration: %d samples, want int(duration*rate) = %d' % (out.shape[0], want_len)
-    want = x[np.arange(want_len) % n] if want_len else x[:0]
+    want = ref_repeat(x, r, D)
+    out = np.asarray(out)
+    if out.shape != want.shape:
+        return 'repeat_samples_to_duration on input of shape %r: result of shape %r, want int(duration*rate) = %d %s, shape %r' % (
+            x.shape, out.shape, want.shape[0], 'frames' if x.ndim == 2 else 'samples', want.shape)
     if not np.array_equal(out, want) or out.dtype != x.dtype:
-        bad = int(np.nonzero(out != want)[0][0]) if out.dtype == x.dtype else -1
+        bad = int(np.nonzero((out != want).reshape(len(out), -1).any(axis=1))[0][0]) if out.dtype == x.dtype else -1
         return 'repeat_samples_to_duration: sample %d is not input sample %d' % (bad, bad % n)
     return None
 
@@ -266,6 +319,14 @@ def build_stereo(A, o):
         return 'stereo', req, 'shape %r' % (out.shape,), hist
     flat = ints_wl(out).split(' ', 1)     # row-major (frame, channel) = l0 r0 l1 r1 …, counted in frames
     return 'stereo', req, ' '.join(['ok', str(out.shape[0])] + flat[1:]), hist
+
+
+def ref_stereo(l, r):
+    m = max(len(l), len(r))
+    out = np.zeros((m, 2), dtype=l.dtype)
+    out[:len(l), 0] = l
+    out[:len(r), 1] = r
+    return out
 
 
 def oracle_stereo(A, o):
@@ -328,8 +389,207 @@ def oracle_pcm(A, ks):
     return ks[back != ks].tolist()
 
 
+# ----------------------------------------------------------------------------- call histories in one process
+# A history is JSON: {'kind': 'history', 'pool': [spec…], 'ops': [op…]}.
+#   spec = {'n', 'dtype', 'off', 'ch'}                      a sample array (mono, or stereo [n, 2] in make_stereo layout)
+#        | {'pcm': 1, 'n', 'seed', 'style'}                 an int16 signal (for i2f / f2i / enc / dec)
+#   op   = {'op': 'call', 'fn': 'crop'|'repeat'|'stereo'|'i2f'|'f2i'|'enc'|'dec', 'x': pool index (, 'y': pool index),
+#           'fresh': bool (pass a private copy instead of the pool object), + the scalar arguments}
+#        | {'op': 'mutate_result', 'k': index of an earlier call}      in-place modification of what that call returned
+#        | {'op': 'mutate_arg', 'x': pool index, 'off'|'seed': new}     in-place rewrite of the pool object's contents
+HIST_FNS = ['crop', 'repeat', 'stereo', 'i2f', 'f2i', 'enc', 'dec']
+
+
+def ref_i2f(k):
+    """float32 nearest to k/32767 (a double division, correctly rounded, then narrowed: k/32767 has a binary expansion
+    of period 15, so the double is never on a float32 rounding boundary); equals the all-values table of stream (a)"""
+    return (np.asarray(k).astype(np.float64) / 32767.0).astype(np.float32)
+
+
+def ref_wav_bytes(k, rate):
+    """a canonical 16-bit mono PCM WAV file, written by hand (RIFF header of 44 bytes + little-endian samples)"""
+    import struct
+    data = np.asarray(k, dtype='<i2').tobytes()
+    return (b'RIFF' + struct.pack('<I', 36 + len(data)) + b'WAVEfmt ' + struct.pack('<IHHIIHH', 16, 1, 1, rate, rate * 2, 2, 16)
+            + b'data' + struct.pack('<I', len(data)) + data)
+
+
+def hist_build(spec):
+    if spec.get('pcm'):
+        return int16_signal(spec['style'], spec['n'], spec['seed'])
+    dt = DT[spec['dtype']]
+    if spec.get('ch', 1) == 2:
+        rows = np.zeros((2, spec['n']), dtype=dt)
+        rows[0, :] = test_array(spec['n'], dt, spec['off'] + 1)
+        k = max(0, spec['n'] - 5)
+        rows[1, :k] = test_array(k, dt, spec['off'] + 3)
+        return rows.T
+    return test_array(spec['n'], dt, spec['off'])
+
+
+def hist_mutate(r):
+    """modify a returned object in place (what a caller post-processing ITS buffer does); False if it cannot be"""
+    if not isinstance(r, np.ndarray) or r.size == 0:
+        return False
+    if not r.flags.writeable:
+        return False
+    if issubclass(r.dtype.type, np.floating):
+        r *= 0.5
+        r += 0.25
+    else:
+        r[...] = r // 2 + 1
+    return True
+
+
+def run_history(A, h, count=None):
+    """replays the history against the real code; returns the first failure text or None.  `count(hist key)` records
+    coverage."""
+    count = count or (lambda key: None)
+    pool = [hist_build(sp) for sp in h['pool']]
+    fpool = [ref_i2f(a) if sp.get('pcm') else None for a, sp in zip(pool, h['pool'])]     # float32 twin of each int16 signal
+    keep = []        # every array handed in or returned so far, kept alive: (label, array)
+    results = []     # per call op: the returned object
+    for step, op in enumerate(h['ops']):
+        where = 'step %d of the call history (%s)' % (step + 1, ' '.join('%s=%r' % kv for kv in sorted(op.items())))
+        if op['op'] == 'mutate_arg':
+            sp = dict(h['pool'][op['x']])
+            sp.update({k: v for k, v in op.items() if k in ('off', 'seed')})
+            pool[op['x']][...] = hist_build(sp)
+            if fpool[op['x']] is not None:
+                fpool[op['x']][...] = ref_i2f(pool[op['x']])
+            count('argument object rewritten in place')
+            continue
+        if op['op'] == 'mutate_result':
+            ok = hist_mutate(results[op['k']]) if op['k'] < len(results) else False
+            count('earlier result modified in place' if ok else 'earlier result not modifiable (bytes / empty / read-only)')
+            continue
+        fn, fresh = op['fn'], op.get('fresh', False)
+        src = fpool if fn in ('f2i', 'enc') else pool
+        x0 = src[op['x']]
+        x = x0.copy() if (fresh or fn == 'crop') else x0          # crop returns a view of its input: always a private copy
+        if fn == 'crop' and x0.ndim == 2:
+            x = np.array(x0.T, copy=True).T                       # private copy in the same (transposed) layout
+        y = None
+        if fn == 'stereo':
+            y0 = pool[op['y']]
+            y = y0.copy() if fresh else y0
+        snap_x, snap_y = x.copy(), (y.copy() if y is not None else None)
+        try:
+            with np.errstate(all='ignore'):
+                if fn == 'crop':
+                    got = A.crop_samples(x, op['rate'], op['begin'], op['length'])
+                    want = ref_crop(snap_x, op['rate'], op['begin'], op['length'])[0]
+                elif fn == 'repeat':
+                    got = A.repeat_samples_to_duration(x, op['rate'], op['duration'])
+                    want = ref_repeat(snap_x, op['rate'], op['duration'])
+                elif fn == 'stereo':
+                    got = A.make_stereo(x, y)
+                    want = ref_stereo(snap_x, snap_y)
+                elif fn == 'i2f':
+                    got = A.int16_samples_to_float32(x)
+                    want = ref_i2f(snap_x)
+                elif fn == 'f2i':
+                    got = A.float_samples_to_int16(x)
+                    want = pool[op['x']].copy()
+                elif fn == 'enc':
+                    got = A.samples_to_wav_data(x, op['rate'])
+                    want = ref_wav_bytes(pool[op['x']], op['rate'])
+                else:
+                    wav = ref_wav_bytes(snap_x, op['rate'])
+                    if fresh:
+                        wav = wav[:20] + wav[20:]           # an equal bytes object that is not the same object
+                    got = A.wav_data_to_samples(wav, op['rate'])
+                    want = ref_i2f(snap_x)
+        except A.AudioIOError as e:
+            return '%s: %s raised %s: %s' % (where, fn, type(e).__name__, e)
+        except Exception as e:  # pylint: disable=broad-except
+            return '%s: %s raised %s: %s' % (where, fn, type(e).__name__, e)
+        results.append(got)
+        nth = sum(1 for o2 in h['ops'][:step] if o2.get('op') == 'call' and o2['fn'] == fn and o2['x'] == op['x'])
+        count('%s: %s' % (fn, 'first call on this argument' if nth == 0 else 'repeated call on this argument'))
+        if isinstance(want, bytes):
+            if got != want:
+                return '%s: samples_to_wav_data did not return the 16-bit PCM WAV encoding of its argument (%d bytes, want %d)' % (
+                    where, len(got) if isinstance(got, bytes) else -1, len(want))
+        else:
+            g = np.asarray(got)
+            if g.shape != want.shape or g.dtype != want.dtype or not np.array_equal(g, want):
+                bad = int(np.flatnonzero((g != want).ravel())[0]) if g.shape == want.shape else -1
+                return ('%s: %s returned %s%r %s, the value for the CURRENT contents of its arguments is %s%r %s%s' % (
+                    where, fn, g.dtype, g.shape, g.ravel()[:4].tolist(), want.dtype, want.shape, want.ravel()[:4].tolist(),
+                    '; first difference at flat index %d: %r instead of %r' % (bad, g.ravel()[bad].item(), want.ravel()[bad].item())
+                    if bad >= 0 else ''))
+        if not np.array_equal(x, snap_x) or (y is not None and not np.array_equal(y, snap_y)):
+            return '%s: %s modified its argument in place' % (where, fn)
+        if isinstance(got, np.ndarray):
+            if fn == 'crop':
+                count('crop result is a view of its own input' if np.shares_memory(got, x) else 'crop result owns its data')
+            for label, other in keep + [('the array passed to this call', a) for a in ((x, y) if fn != 'crop' else (y,)) if a is not None]:
+                if other is not got and np.shares_memory(got, other):
+                    return '%s: the array returned by %s shares memory with %s' % (where, fn, label)
+            keep.append(('the result of step %d (%s)' % (step + 1, fn), got))
+        for a, nm in ((x, 'x'), (y, 'y')):
+            if a is not None and not any(a is o for _, o in keep):
+                keep.append(('an array passed to %s at step %d' % (fn, step + 1), a))
+    return None
+
+
+def gen_history(rng):
+    """a pool of three sample arrays and two int16 signals; 4-6 call sites, each called 2-3 times with the same
+    arguments, interleaved with the other call sites, with in-place modification of returned arrays and of the
+    argument objects in between"""
+    rate = rng.choice(SMALL_RATES[2:] + RATES)
+    n = rng.choice([6, 9, 17, 40]) if rate < 1000 else rng.choice([50, 441, 800, 1500])
+    dt = rng.choice(['float32', 'int16', 'float64'])
+    pool = [{'n': n, 'dtype': dt, 'off': rng.randrange(1000), 'ch': 1},
+            {'n': rng.choice([n, n + 3, max(1, n - 2)]), 'dtype': dt, 'off': rng.randrange(1000), 'ch': 1},
+            {'n': n, 'dtype': dt, 'off': rng.randrange(1000), 'ch': 2},
+            {'pcm': 1, 'n': rng.choice([8, 100, 1000, 4000]), 'seed': rng.randrange(1 << 30), 'style': rng.choice(['uniform', 'extremes', 'ramp', 'sine'])},
+            {'pcm': 1, 'n': rng.choice([1, 8, 300]), 'seed': rng.randrange(1 << 30), 'style': rng.choice(['uniform', 'ramp'])}]
+    sites = []
+    for fn in rng.sample(HIST_FNS, rng.choice([4, 5, 6])) + [rng.choice(['dec', 'repeat', 'crop'])]:
+        c = {'op': 'call', 'fn': fn, 'fresh': rng.random() < 0.4}
+        if fn in ('crop', 'repeat'):
+            c['x'] = rng.choice([0, 1, 2])
+            m = pool[c['x']]['n']
+            c['rate'] = rate
+            if fn == 'crop':
+                c['begin'], c['length'] = rng.randrange(0, m) / rate, rng.randrange(1, m + 3) / rate
+            else:
+                c['duration'] = rng.choice([rng.randrange(1, 3 * m) / rate, rng.uniform(0.2, 3.0) * m / rate])
+        elif fn == 'stereo':
+            c['x'], c['y'] = rng.choice([(0, 1), (1, 0), (0, 0)])
+        else:
+            c['x'] = rng.choice([3, 4])
+            if fn in ('enc', 'dec'):
+                c['rate'] = rng.choice(RATES)
+        sites.append(c)
+    ops, ncalls, last = [], 0, {}
+    order = []
+    for i, c in enumerate(sites):
+        order += [i] * rng.choice([2, 2, 3])
+    rng.shuffle(order)
+    for i in order:
+        ops.append(dict(sites[i]))
+        if i in last and rng.random() < 0.15:
+            ops[-1]['fresh'] = not ops[-1]['fresh']
+        last[i] = ncalls
+        ncalls += 1
+        k = rng.random()
+        if k < 0.7:
+            ops.append({'op': 'mutate_result', 'k': last[i] if rng.random() < 0.8 else rng.randrange(ncalls)})
+        if rng.random() < 0.2:
+            x = rng.randrange(len(pool))
+            ops.append(dict({'op': 'mutate_arg', 'x': x}, **({'seed': rng.randrange(1 << 30)} if pool[x].get('pcm') else {'off': rng.randrange(1000)})))
+    return {'kind': 'history', 'pool': pool, 'ops': ops}
+
+
+def oracle_history(A, h):
+    return run_history(A, h)
+
+
 BUILD = {'crop': build_crop, 'repeat': build_repeat, 'stereo': build_stereo}
-ORACLE = {'crop': oracle_crop, 'repeat': oracle_repeat, 'stereo': oracle_stereo, 'wav': oracle_wav}
+ORACLE = {'crop': oracle_crop, 'repeat': oracle_repeat, 'stereo': oracle_stereo, 'wav': oracle_wav, 'history': oracle_history}
 
 
 # ----------------------------------------------------------------------------- generators
@@ -362,9 +622,18 @@ def gen_crop(rng, big):
         n = rng.choice([0, 1, 5, 17, 40, rng.randrange(0, 60), rng.randrange(0, 60)]) if rate < 1000 else \
             rng.choice([0, 100, 4410, rng.randrange(0, 3000), rng.randrange(0, 3000)])
     neg = rng.random() < 0.06
-    return {'kind': 'crop', 'n': n, 'dtype': rng.choice(['float32', 'int16', 'float64', 'int32']), 'rate': rate,
-            'begin': gen_seconds(rng, rate, n if rng.random() < 0.15 else n // 2, neg),
-            'length': gen_seconds(rng, rate, n, neg and rng.random() < 0.5)}
+    o = {'kind': 'crop', 'n': n, 'dtype': rng.choice(['float32', 'int16', 'float64', 'int32']), 'rate': rate,
+         'begin': gen_seconds(rng, rate, n if rng.random() < 0.15 else n // 2, neg),
+         'length': gen_seconds(rng, rate, n, neg and rng.random() < 0.5)}
+    return gen_channels(rng, o, big)
+
+
+def gen_channels(rng, o, big):
+    """a quarter of the crop / repeat cases get stereo input [n, 2] (make_stereo layout, sometimes C-contiguous)"""
+    if rng.random() < (0.15 if big else 0.27):
+        o['ch'] = 2
+        o['layout'] = rng.choice(['T', 'T', 'C'])
+    return o
 
 
 def gen_repeat(rng, big):
@@ -396,7 +665,8 @@ def gen_repeat(rng, big):
         D = rng.choice([0.0, 0, -1.0, -sd, -0.5 * sd, -1e-9])                        # malformed: not positive
     else:
         D = rng.uniform(0, maxm) * sd
-    return {'kind': 'repeat', 'n': n, 'dtype': rng.choice(['float32', 'int16', 'float64']), 'rate': rate, 'duration': D}
+    return gen_channels(rng, {'kind': 'repeat', 'n': n, 'dtype': rng.choice(['float32', 'int16', 'float64']), 'rate': rate,
+                             'duration': D}, big)
 
 
 def gen_stereo(rng, big):
@@ -421,6 +691,13 @@ def enum_small():
         for n in range(1, 6):
             for d in range(1, 33):
                 yield {'kind': 'repeat', 'n': n, 'dtype': 'float32', 'rate': rate, 'duration': d / 4}
+    for rate in (1, 2):
+        for n in range(0, 5):
+            for d in range(1, 25):
+                yield {'kind': 'repeat', 'n': n, 'dtype': 'int16', 'rate': rate, 'duration': d / 4, 'ch': 2, 'layout': 'T'}
+            for b in range(0, 9):
+                for L in range(0, 9):
+                    yield {'kind': 'crop', 'n': n, 'dtype': 'int16', 'rate': rate, 'begin': b / 4, 'length': L / 4, 'ch': 2, 'layout': 'T'}
     for nl in range(0, 8):
         for nr in range(0, 8):
             yield {'kind': 'stereo', 'nl': nl, 'nr': nr, 'dl': 'int16', 'dr': 'int16'}
@@ -471,7 +748,11 @@ def run(chk):
                 'and arbitrary float32 signals at the five rates; crop / repeat: arrays of 0..10^5 samples, rates '
                 '{1,2,3,7,10,100} and {8000,16000,22050,44100,48000}, seconds on sample boundaries +-ulps, decimal literals, '
                 'Python ints, at/beyond the end, multiples of the signal length; stereo: all length relations and dtype pairs; '
-                'malformed streams: wrong dtypes, negative seconds, empty input, rate 0, duration <= 0, non-16-bit WAV, garbage bytes. '
+                'crop / repeat also on stereo input [n, 2] in the layout make_stereo returns and C-contiguous; '
+                'malformed streams: wrong dtypes, negative seconds, empty input, rate 0, duration <= 0, non-16-bit WAV, garbage bytes; '
+                'history: 4-7 call sites over the seven functions of the statement, each called 2-3 times in one process from a pool of '
+                'argument objects, interleaved, with in-place modification of earlier results / argument objects in between, results '
+                'checked against the reference on the current argument contents and for shared memory. '
                 'non-trivial = distinct request whose result is a value with at least one sample')
     ents = []   # dict(stream, req, impl, hist, post)
 
@@ -607,6 +888,20 @@ def run(chk):
         if r:
             nfail += 1
             chk.fail(r, o)
+
+    # ---- (f) call histories in one process (oracle only: the Lean model is a pure function, so it has no history)
+    rng = chk.subrng('history')
+    hists = [o for (_, o) in corpus_cases(PID) if o.get('kind') == 'history'] + [gen_history(rng) for _ in range(chk.n(150, 2500))]
+    nfail = 0
+    for h in hists:
+        ncall = sum(1 for op in h['ops'] if op['op'] == 'call')
+        r = run_history(A, h, lambda key: chk.count('history', None, False, key)) if nfail < 5 else None
+        chk.stream('history')['evaluations'] += ncall - sum(1 for op in h['ops'])   # evaluations = calls made
+        chk.stream('history')['nontrivial'].add(repr(h['ops'])[:2000])
+        if r:
+            nfail += 1
+            m = int(r.split()[1])
+            chk.fail(r, {'kind': 'history', 'pool': h['pool'], 'ops': h['ops'][:m]})
 
     # ---- run the model on the same requests and diff exactly
     model = chk.driver(EXE, [e['req'] for e in ents])
